@@ -42,9 +42,13 @@ SHAPES = {
 COMPOSITES = {
     "C": [("A", 0, 0, None, False), ("acutecomb", 330, 40, None, False)],
     "D": [("E", 0, 0, None, True), ("O", 520, 10, (0.5, 0.0, 0.0, 0.5), False)],
+    # depth-2 composites; one name sorts before its inner composite, the other after it
+    "Anest": [("C", 0, 0, None, False), ("gravecomb", 470, 90, None, False)],
+    "Znest": [("D", 10, 0, None, False), ("acutecomb", 300, 60, None, False)],
 }
-ORDER = [".notdef", "space", "A", "B", "E", "O", "C", "D", "acutecomb", "gravecomb", "A.alt"]
-CMAP = {0x20: "space", 0x41: "A", 0x42: "B", 0x45: "E", 0x4F: "O", 0x43: "C", 0x44: "D", 0x301: "acutecomb", 0x300: "gravecomb"}
+ORDER = [".notdef", "space", "A", "B", "E", "O", "C", "D", "acutecomb", "gravecomb", "A.alt", "Znest", "Anest"]
+CMAP = {0x20: "space", 0x41: "A", 0x42: "B", 0x45: "E", 0x4F: "O", 0x43: "C", 0x44: "D", 0x301: "acutecomb", 0x300: "gravecomb",
+        0xE000: "Anest", 0xE001: "Znest"}
 MARKS = ["acutecomb", "gravecomb"]
 BASES = ["A", "B", "E", "O"]
 
@@ -86,10 +90,21 @@ def gen_axes(rnd, naxes, maps=True):
         amap = None
         if maps and rnd.random() < 0.6:
             kind = rnd.random()
-            users = sorted({lo, df, hi} | ({rnd.randrange(int(lo), int(hi) + 1) for _ in range(rnd.randrange(0, 3))} if kind > 0.25 else set()))
-            if kind < 0.25:
+            if kind < 0.2:
+                users = sorted({lo, df, hi})
                 amap = [(float(u), float(u)) for u in users]           # identity map
+            elif kind < 0.45:
+                # "user == design at most stops, one stop tweaked": interior knots that normalise to themselves
+                # next to one that does not
+                users = sorted({lo, df, hi} | {rnd.randrange(int(lo), int(hi) + 1) for _ in range(rnd.randrange(2, 5))})
+                amap = [(float(u), float(u)) for u in users]
+                inner = [i for i, u in enumerate(users) if u not in (lo, df, hi)]
+                if inner:
+                    j = rnd.choice(inner)
+                    gap = (users[j + 1] - users[j]) if rnd.random() < 0.5 else -(users[j] - users[j - 1])
+                    amap[j] = (float(users[j]), float(users[j]) + gap * rnd.choice([0.25, 0.5, 0.75]))
             else:
+                users = sorted({lo, df, hi} | {rnd.randrange(int(lo), int(hi) + 1) for _ in range(rnd.randrange(0, 3))})
                 # monotone design values; occasionally steep / nearly flat segments
                 d = rnd.choice([0, 20, 100, -50])
                 amap = []
@@ -333,7 +348,7 @@ def _fea(rnd, is_default, glyphs, with_caret, sparse_kern=False):
         for m in marks:
             lines.append("  pos mark %s <anchor %d %d> mark @TOP;" % (m, j(-70, 25), j(740, 25)))
         lines.append("} mkmk;")
-    bases = [g for g in ("A", "B", "E", "O", "C", "D", "A.alt") if g in glyphs]
+    bases = [g for g in ("A", "B", "E", "O", "C", "D", "A.alt", "Anest", "Znest") if g in glyphs]
     lines.append("table GDEF {")
     lines.append("  GlyphClassDef [%s], , [%s], ;" % (" ".join(bases), " ".join(marks)))
     if with_caret and "D" in glyphs:
